@@ -3,7 +3,9 @@ package main
 import (
 	"fmt"
 	"go/constant"
+	"go/token"
 	"regexp/syntax"
+	"strings"
 
 	"golang.org/x/tools/go/ssa"
 )
@@ -254,6 +256,89 @@ func ruleEANAssembly(c *Ctx) {
 				}
 			}
 			c.expectCond(R4, "ean.EncodeWithColor/"+v.enc+"-iff", call.Pos(), n.ReachCond(fn, from, call.Block()), v.want)
+			// the completed code is the caller's code itself, or the caller's code followed by one more character
+			// (the computed check digit, N3/V1): nothing is put in front of it and nothing replaces it
+			{
+				var bad []string
+				unknown := 0
+				seen := map[ssa.Value]bool{}
+				type frame struct {
+					args map[*ssa.Parameter]ssa.Value
+					up   *frame
+				}
+				var walk func(x ssa.Value, allowCat bool, fr *frame, depth int)
+				viaCall := func(call *ssa.Call, idx int, allowCat bool, fr *frame, depth int) bool {
+					cal := calleeOf(call)
+					if cal == nil || cal.Blocks == nil || cal.Pkg == nil || !isRepoPkg(cal.Pkg.Pkg.Path()) || depth > 3 {
+						return false
+					}
+					nf := &frame{args: map[*ssa.Parameter]ssa.Value{}, up: fr}
+					for i, p := range cal.Params {
+						if i < len(call.Common().Args) {
+							nf.args[p] = call.Common().Args[i]
+						}
+					}
+					for _, ret := range returnsOf(cal) {
+						if idx < len(ret.Results) {
+							walk(ret.Results[idx], allowCat, nf, depth+1)
+						}
+					}
+					return true
+				}
+				walk = func(x ssa.Value, allowCat bool, fr *frame, depth int) {
+					if fr == nil {
+						if seen[x] {
+							return
+						}
+						seen[x] = true
+					}
+					switch y := x.(type) {
+					case *ssa.Parameter:
+						if fr != nil {
+							if a, ok := fr.args[y]; ok {
+								walk(a, allowCat, fr.up, depth)
+								return
+							}
+						}
+						if y != fn.Params[0] {
+							bad = append(bad, n.Norm(x).String())
+						}
+					case *ssa.Const:
+						if y.Value == nil || constant.StringVal(y.Value) != "" {
+							bad = append(bad, n.Norm(x).String())
+						}
+					case *ssa.Phi:
+						if depth > 8 {
+							bad = append(bad, n.Norm(x).String())
+							return
+						}
+						for _, e := range y.Edges {
+							walk(e, allowCat, fr, depth+1)
+						}
+					case *ssa.Extract:
+						if call, ok := y.Tuple.(*ssa.Call); !ok || !viaCall(call, y.Index, allowCat, fr, depth) {
+							unknown++
+						}
+					case *ssa.Call:
+						if !viaCall(y, 0, allowCat, fr, depth) {
+							unknown++
+						}
+					case *ssa.BinOp:
+						if y.Op == token.ADD && allowCat {
+							walk(y.X, false, fr, depth+1)
+						} else {
+							bad = append(bad, n.Norm(x).String())
+						}
+					default:
+						// a construct this walk does not follow (field of a local struct, slice, ...): not judged here
+						unknown++
+					}
+				}
+				delete(n.Bind, full)
+				walk(full, true, nil, 0)
+				n.Bind[full] = "full"
+				c.Check(R4, "ean.EncodeWithColor/"+v.enc+"-digits", call.Pos(), len(bad) == 0, "the caller's code, or the caller's code + one appended check digit", fmt.Sprintf("also: %s (%d constructs not followed)", strings.Join(bad, "; "), unknown))
+			}
 			// the constructor fed by this call: wherever the bars of this variant arrive, the kind is the
 			// variant's and the content is the completed code
 			found := false
